@@ -235,8 +235,18 @@ def execute(ctx, spec):
     except Exception as exc:
         ctx.count(f"apply-raises:{hk}:{wk}:{type(exc).__name__}")
         ctx.case(None)
-        ctx.disagree(f"apply-raises:{hk}:{wk}:{type(exc).__name__}",
-                     f"apply raised {type(exc).__name__}: {exc}", spec)
+        sig = f"apply-raises:{hk}:{wk}:{type(exc).__name__}"
+        built = None
+        if hk == "fermionop":
+            try:
+                built = fqe.build_hamiltonian(ham, norb=norb, conserve_number=True)
+            except Exception:
+                built = None
+        if built is not None and type(built).__name__ == "DiagonalCoulomb" and built.dim() == 2 * norb:
+            # the C06 finding seen through apply: an operator made only of n_p n_q products is turned into a
+            # DiagonalCoulomb object carrying the 2*norb spin-orbital tensor, which the (spatial) kernels refuse
+            sig = "build:diagonal-coulomb-from-rank4-operator-has-dimension-2norb"
+        ctx.disagree(sig, f"apply raised {type(exc).__name__}: {exc}", spec)
         return
     bad = U.compare_wfn(out, want, tol=1e-9 if hk in ("fermionop", "sparse") else 0.0)
     nontrivial = any(v[0] < 0 or v[1] != 0 for v in want.values()) and len(want) > 0
